@@ -571,11 +571,20 @@ def run(prop, replay_file=None):
         if i % 2 == 0:
             after = after_unrelated_session_digest(spec)
             if after is not None:
+                after, ref_plain = after
                 rep.cov["runs_after_an_unrelated_session"] = rep.cov.get("runs_after_an_unrelated_session", 0) + 1
-                if after != d1:
+                if after != ref_plain:
                     rep.violation("rerun|after-unrelated-session", "the same backtest gives another result after an unrelated session (same symbols, "
                                   "other prices) has run in the same interpreter, both using the session's default data handler; configuration %s"
                                   % es._brief(spec["cfg"]), dict(spec=spec))
+        if i % 3 == 0:
+            bad = recycled_source_answers(spec)
+            if bad is not None:
+                rep.cov["throw_away_data_sources"] = rep.cov.get("throw_away_data_sources", 0) + 18
+                if bad:
+                    rep.violation("rerun|recycled-data-source", "a data source created after others had been thrown away answers differently from the "
+                                  "first source over the same files (rounds %s of 16; the interpreter recycles object addresses); configuration %s"
+                                  % (bad[:6], es._brief(spec["cfg"])), dict(spec=spec))
         pair = shared_alpha_digests(spec)
         if pair is not None:
             rep.cov["runs_sharing_an_alpha_model_object"] = rep.cov.get("runs_sharing_an_alpha_model_object", 0) + 2
@@ -691,15 +700,62 @@ def after_unrelated_session_digest(spec):
     c = json.loads(json.dumps(spec["cfg"]))
     if spec["alpha"] != "config" or c["alpha"] not in ("fixed", "single") or not c["market"]:
         return None
+    # (the weights as the configuration holds them: a hand-built alpha model would keep the session from using its default handler)
+    plain = dict((k, v) for k, v in spec.items() if k != "wdiv")
+    c["default_dh"] = False
+    try:
+        ref = digest_outcome(run_world(dict(plain, cfg=json.loads(json.dumps(c))), 12345))[0]       # a handler of its own: the reference
+    except Exception:
+        return None
     c["default_dh"] = True
     other = json.loads(json.dumps(c))
     other["market"] = dict((a, dict((d, [0 if o == 0 else o + 4000, 0 if cl == 0 else cl + 2000]) for d, (o, cl) in bars.items()))
                            for a, bars in c["market"].items())
+    run_world(dict(plain, cfg=other), 777)
+    return digest_outcome(run_world(dict(plain, cfg=c), 12345))[0], ref
+
+
+def recycled_source_answers(spec, rounds=16):
+    """Data-source objects are created over two directories in turn (same symbols, same dates, other prices), asked a few
+    instants and thrown away at once: the interpreter hands the next object the address of the previous one every so
+    often.  What a source answers must depend on ITS files only: returns the list of (round, what differs)."""
+    import gc
+    c = spec["cfg"]
+    if not c["market"]:
+        return None
+    from qstrader.asset.equity import Equity
+    from qstrader.data.daily_bar_csv import CSVDailyBarDataSource
+    other = dict((a, dict((d, [0 if o == 0 else o + 4000, 0 if cl == 0 else cl + 2000]) for d, (o, cl) in bars.items()))
+                 for a, bars in c["market"].items())
+    dirs = [tempfile.mkdtemp(prefix="qsv-recy-"), tempfile.mkdtemp(prefix="qsv-recy-")]
     try:
-        run_world(dict(spec, cfg=other), 777)
-        return digest_outcome(run_world(dict(spec, cfg=c), 12345))[0]
+        sr.write_market(dirs[0], c["market"], random.Random(5))
+        sr.write_market(dirs[1], other, random.Random(6))
+        syms = sorted(c["market"])
+        days = sorted(set(int(d) for bars in c["market"].values() for d in bars))[:6]
+        instants = [ts(d * 1440 + m) for d in days for m in (870, 1260)]
+
+        def answers(k):
+            ds = CSVDailyBarDataSource(dirs[k], Equity, csv_symbols=syms)
+            out = []
+            for a in syms:
+                for t in instants:
+                    out.append((repr(float(ds.get_bid(t, "EQ:" + a))), repr(float(ds.get_ask(t, "EQ:" + a)))))
+            del ds
+            gc.collect()
+            return out
+        ref = [answers(0), answers(1)]
+        bad = []
+        for r in range(rounds):
+            k = (r + 1) % 2
+            if answers(k) != ref[k]:
+                bad.append(r)
+        return bad
     except Exception:
         return None
+    finally:
+        for d in dirs:
+            shutil.rmtree(d, ignore_errors=True)
 
 
 def shared_alpha_digests(spec):
